@@ -12,7 +12,8 @@ Record lcase := LC {
   i_trace : list (Z * Z);              (* implementation: (tid, site code) per step *)
   i_res : list (list ev);              (* per thread, oldest first *)
   i_sets : list (Z * Z * Z);           (* per set: outstanding, canceled, guard at the end *)
-  i_wr : Z; i_q : Z; i_status : Z }.
+  i_wr : Z; i_q : Z; i_status : Z;
+  i_wrapped : list Z }.                (* ids of the tasks whose body was started by the queued-task wrapper (site ts.task.body) *)
 
 Definition zpair_eqb (a b : Z * Z) : bool := (fst a =? fst b) && (snd a =? snd b).
 Definition ztrip_eqb (a b : Z * Z * Z) : bool := zpair_eqb (fst a) (fst b) && (snd a =? snd b).
@@ -213,7 +214,24 @@ Fixpoint check_pending (c : lcase) (l : list (list ev)) (t : Z) : bool :=
   | [] => true
   | evs :: r => negb (existsb (pending_at_return c t) (waits_of evs [])) && check_pending c r (t + 1)
   end.
-Definition check_C05 (c : lcase) : bool := nodup_z (rethrows c) && scan_C05 c (i_trace c) 1 && check_pending c (i_res c) 0.
+(* "if task bodies throw, the first captured exception is rethrown by the next wait that observes completion" also means that a thrown
+   exception IS captured when none is pending.  On the implementation's log: a wait() that returned normally / a tryWait that returned true
+   on set T, although a queued task of T whose scheduling call had returned before the wait was called ended its body by throwing (its count
+   is released only after the capture attempt, so the wait observed completion after it), while nobody has been handed an exception of T
+   up to that return: the exception was lost. *)
+Definition lost_exception (c : lcase) : bool :=
+  let all := all_subs_par c in
+  existsb (fun w =>
+    let '(T, cstamp, kind, r, wstamp) := w in
+    let normal := (kind =? t_w) || ((kind =? t_tw) && (r =? 1)) in
+    normal &&
+    existsb (fun x => let '(k, T', st, par) := x in
+                      (T' =? T) && (st <=? cstamp) && existsb (Z.eqb k) (i_wrapped c) &&
+                      existsb (fun e => (tag e =? t_ee) && (arg e =? k) && (stamp e <=? wstamp)) (all_ev c)) all &&
+    negb (existsb (fun e => (tag e =? t_rt) && (arg e mod 64 =? T) && (stamp e <=? wstamp)) (all_ev c))) (waits c).
+
+Definition check_C05 (c : lcase) : bool :=
+  nodup_z (rethrows c) && scan_C05 c (i_trace c) 1 && check_pending c (i_res c) 0 && negb (lost_exception c).
 
 (* C47 on the implementation's log: with numThreads >= 1 the functor of a ForceQueuingTag submission does not run on the calling
    thread before the scheduling call returns (a body event of that task earlier in the same thread's log) *)
